@@ -368,6 +368,14 @@ class PokerGameState:
                 f"less than the desired wager of {action.amount}"
             )
 
+        if action.action == Action.action_call:
+            if action.amount != self.amount_to_call:
+                raise ValueError(
+                    f"Invalid {action.action} size: "
+                    f"amount {action.amount} "
+                    f"is not the {self.amount_to_call} to call"
+                )
+
         if action.action in Action.aggressions:
             if action.amount < self.min_bet:
                 raise ValueError(
